@@ -919,6 +919,17 @@ fn printer_universe(ctx: &mut Ctx, max_idx_15: bool) -> Vec<Term> {
         crate::props::Sizes { enum_size: 6, enum_free: 2, n_random: 3000, rand_size: 40 }
     };
     let mut uni = crate::props::universe(ctx, &sz, false);
+    // repeated identical subterms: M M, M M M, λ.M M, M (M M) … for small random M (variables, abstractions AND applications)
+    let nself = if ctx.thorough { 3000 } else { 400 };
+    for _ in 0..nself {
+        let b = 1 + ctx.rng.below(7);
+        let m = random_term(&mut ctx.rng, b, 0, false, 10);
+        uni.push(app(m.clone(), m.clone()));
+        uni.push(app(app(m.clone(), m.clone()), m.clone()));
+        uni.push(app(m.clone(), app(m.clone(), m.clone())));
+        uni.push(abs(app(Var(1), app(m.clone(), m.clone()))));
+        uni.push(abs(abs(app(app(m.clone(), m.clone()), app(m.clone(), m.clone())))));
+    }
     uni.retain(|t| !free_vars(t).1);
     if max_idx_15 {
         uni.retain(|t| idx_range(t).map_or(true, |(_, hi)| hi < (1usize << 31)));
